@@ -87,6 +87,15 @@ def run(res, replay=None):
                       'designed': 'tiny_change'})
         specs.append({'n_items': [['a', 3]], 'model': {'kind': 'kingman'},
                       'pop_sizes': {'a': {repr(0.125 * i): 1.0 + i * step for i in range(0, 9)}}, 'designed': 'fine_staircase'})
+    if not replay:
+        # designed: the object is looked at (size of its state space), the demography it holds is then completed with a change
+        # taking effect at time 0, and only then are the moments asked for
+        specs.append({'n_items': [['a', 4]], 'model': {'kind': 'kingman'}, 'pop_sizes': {'a': {'0.0': 1.0}},
+                      'late_events': [{'type': 'PopSizeChange', 'pop': 'a', 'time': 0.0, 'size': 2.0}], 'designed': 'late_event'})
+        specs.append({'n_items': [['a', 2], ['b', 1]], 'model': {'kind': 'beta', 'alpha': 1.5}, 'pop_sizes': {'a': {'0.0': 1.0, '1.0': 4.0}, 'b': {'0.0': 2.0}},
+                      'migration_rates': {'a>b': {'0.0': 0.5}, 'b>a': {'0.0': 0.25}}, 'late_touch_bc': True,
+                      'late_events': [{'type': 'PopSizeChange', 'pop': 'b', 'time': 0.0, 'size': 0.5},
+                                      {'type': 'MigrationRateChange', 'source': 'b', 'dest': 'a', 'time': 0.5, 'rate': 1.0}], 'designed': 'late_event'})
     cases = []
     for j, s in enumerate(specs):
         ops = build_ops(rng, s, budget=(96 if res.tier == 'quick' else 180))
